@@ -54,11 +54,18 @@ func sortedPaths(ps [][]string) []string {
 
 // keyDiff walks two JSON values in parallel and reports the first object whose key set differs.
 func keyDiff(got, want interface{}, path string, allowMissing bool) string {
+	return keyDiffMode(got, want, path, allowMissing, false)
+}
+
+// keyDiffMode: with loose set (a service was made to answer with a value of the wrong kind at a join point, and the
+// gateway may hand that value on as it came) a place where the kinds differ is not looked into; what is compared is
+// the keys of every object that stands where the monolith has an object
+func keyDiffMode(got, want interface{}, path string, allowMissing, loose bool) string {
 	switch g := got.(type) {
 	case map[string]interface{}:
 		w, ok := want.(map[string]interface{})
 		if !ok {
-			if want == nil && allowMissing {
+			if (want == nil || loose) && allowMissing {
 				return ""
 			}
 			return fmt.Sprintf("%s: object where the monolith has %T", path, want)
@@ -76,7 +83,7 @@ func keyDiff(got, want interface{}, path string, allowMissing bool) string {
 			}
 		}
 		for k, v := range g {
-			if d := keyDiff(v, w[k], path+"/"+k, allowMissing); d != "" {
+			if d := keyDiffMode(v, w[k], path+"/"+k, allowMissing, loose); d != "" {
 				return d
 			}
 		}
@@ -90,7 +97,7 @@ func keyDiff(got, want interface{}, path string, allowMissing bool) string {
 		}
 		for i := range g {
 			if i < len(w) {
-				if d := keyDiff(g[i], w[i], fmt.Sprintf("%s/%d", path, i), allowMissing); d != "" {
+				if d := keyDiffMode(g[i], w[i], fmt.Sprintf("%s/%d", path, i), allowMissing, loose); d != "" {
 					return d
 				}
 			}
@@ -101,6 +108,7 @@ func keyDiff(got, want interface{}, path string, allowMissing bool) string {
 
 func (c04) Run(c *Ctx, i int) CaseResult {
 	var in FedInput
+	loose := false
 	feats := map[string]bool{}
 	id := ""
 	if i < len(FedCorpus) {
@@ -127,6 +135,19 @@ func (c04) Run(c *Ctx, i int) CaseResult {
 					Kind: []string{"transport", "gqlerrors"}[r.Intn(2)]})
 			}
 			feats["faults"] = true
+		} else if i%3 == 2 {
+			// an otherwise correct answer that is of the wrong kind exactly where a follow-up step joins: the
+			// executor and, where the place is listed, the scrubber trip over it; whatever data is handed back
+			// must not show an id the client did not ask for (at the other join points either)
+			if ref, err := RunFed(c, in, 5*time.Second); err == nil && ref.Invalid == "" && len(ref.Out.Plans) > 0 && ref.Out.Err == nil &&
+				!ref.Out.PlanErr && !ref.Out.Hung && ref.Out.Panicked == nil {
+				if js := joinSites(ref.Fed, ref.Out.Plans); len(js) > 0 {
+					j := js[r.Intn(len(js))]
+					in.Faults = []FaultSpec{{Service: j.svc, MatchID: j.id, Kind: []string{"join-retype", "join-scalar"}[r.Intn(2)], Path: j.path}}
+					feats["join-fault"] = true
+					loose = true
+				}
+			}
 		}
 		id = fmt.Sprintf("gen:%d", i)
 	}
@@ -230,7 +251,11 @@ func (c04) Run(c *Ctx, i int) CaseResult {
 	}
 	// L0: key sets
 	faulty := fc.Out.Err != nil
-	if d := keyDiff(interface{}(fc.Out.Data), normaliseJSON(fc.Want), "", faulty); d != "" && !(faulty && fc.Out.Data == nil) {
+	if faulty && fc.Out.Data != nil {
+		feats["partial-data"] = true
+		res.Features = FeatList(feats)
+	}
+	if d := keyDiffMode(interface{}(fc.Out.Data), normaliseJSON(fc.Want), "", faulty, loose && faulty); d != "" && !(faulty && fc.Out.Data == nil) {
 		what := "key set differs from the monolith's at " + d
 		if faulty {
 			what = "partial data carries a key the monolith's object lacks at " + d
